@@ -145,6 +145,7 @@ impl Profile {
         p.n_docs = if rng.pct(30) { 2 } else { 1 };
         p.twin = p.n_docs == 2 && rng.pct(40);
         p.doc_nodes = rng.range(3, 40);
+        p.expanded = rng.pct(35);
         p
     }
 }
@@ -628,11 +629,20 @@ impl Gen {
                 self.pick_slot(task, &any)?
             };
             let rm = w.model.node_slot(recv)?;
-            let kids: Vec<S> = self.nodes(w, |_| true).into_iter().filter(|s| w.model.node_slot(*s).map(|m| w.model.nodes[m].parent == Some(rm)).unwrap_or(false)).collect();
+            let mut kids: Vec<S> = self.nodes(w, |_| true).into_iter().filter(|s| w.model.node_slot(*s).map(|m| w.model.nodes[m].parent == Some(rm)).unwrap_or(false)).collect();
+            // merged text handles (text-expanded view) whose pieces are children of the receiver
+            for (i, sl) in w.model.slots.iter().enumerate() {
+                if let Some(MSlot::Run(r)) = sl {
+                    if r.first().map(|h| w.model.nodes[*h].parent == Some(rm)).unwrap_or(false) {
+                        kids.push(i);
+                    }
+                }
+            }
             let out = self.next_slot;
+            let runs: Vec<S> = w.model.slots.iter().enumerate().filter(|(_, s)| matches!(s, Some(MSlot::Run(_)))).map(|(i, _)| i).collect();
             let op = match self.rng.below(10) {
                 0..=2 => {
-                    let new = self.pick_slot(task, &any)?;
+                    let new = if want_illegal && !runs.is_empty() && self.rng.pct(30) { *self.rng.pick(&runs) } else { self.pick_slot(task, &any)? };
                     Op::AppendChild { recv, new, out }
                 }
                 3..=5 => {
@@ -746,6 +756,22 @@ impl Gen {
     }
 
     fn gen_data(&mut self, w: &World, task: usize) -> Option<Op> {
+        let runs: Vec<(S, usize)> = w
+            .model
+            .slots
+            .iter()
+            .enumerate()
+            .filter_map(|(i, s)| match s {
+                Some(MSlot::Run(r)) => Some((i, chars_len(&w.model.run_data(r)))),
+                _ => None,
+            })
+            .collect();
+        if !runs.is_empty() && self.rng.pct(25) {
+            let (node, len) = *self.rng.pick(&runs);
+            let off = if self.rng.pct(self.p.illegal_pct) { *self.rng.pick(&[len + 1, len + 2, usize::MAX]) } else { self.rng.range(0, len) };
+            let cnt = self.count(len, off);
+            return Some(Op::Substring { node, off, cnt });
+        }
         let cds = self.nodes(w, |n| n.kind.is_chardata());
         let pis = self.nodes(w, |n| n.kind == Kind::PI);
         if cds.is_empty() || (self.rng.pct(8) && !pis.is_empty()) {
@@ -836,7 +862,7 @@ impl Gen {
                     .iter()
                     .enumerate()
                     .filter_map(|(i, s)| match s {
-                        Some(MSlot::Vec(v)) if !v.is_empty() => Some((i, v.len())),
+                        Some(MSlot::Vec(v, _)) if !v.is_empty() => Some((i, v.len())),
                         _ => None,
                     })
                     .collect();
